@@ -328,27 +328,6 @@ theorem match_qtype (t : TYPE) (q : QTYPE) :
 theorem match_qclass :
     Gen.Env.matchQClass.all (· == [("ANY", "true"), ("CLASS", "eq")]) := by decide
 
-/-! ### 8. `ExpirationInfo::new` (simple-mdns) -/
-
-def refreshWith (shortBelow shortDiv longDiv longMul ttl : Nat) : Nat :=
-  if ttl = 0 then 0 else if ttl < shortBelow then ttl / shortDiv else ttl / longDiv * longMul
-
-theorem refresh_offset (ttl : Nat) :
-    Mdns.refreshOffsetSecs ttl =
-      refreshWith (Gen.Env.expShortBelow.getD 60) (Gen.Env.expShortDiv.getD 2)
-        (Gen.Env.expLongDiv.getD 10) (Gen.Env.expLongMul.getD 8) ttl := rfl
-
-/-! ### 9. the responder loops and a failed `send_to` (simple-mdns) -/
-
-def policyOf (s : String) : Mdns.OnSendError := if s = "propagate" then .propagate else .log
-
-/-- both flavours of `SimpleMdnsResponder::responder_loop` log a failed send and go on — the policy
-`Props/C14.lean` proves harmless (`responder_loop_survives`); with `?` instead, one datagram ends
-the service (`responder_loop_propagate_ends`) -/
-theorem responder_send_policy :
-    policyOf (Gen.Env.responderSendSync.getD "log") = Mdns.responderSendPolicy ∧
-    policyOf (Gen.Env.responderSendTokio.getD "log") = Mdns.responderSendPolicy := by decide
-
 /-! ### 10. `into_owned`, field by field
 
 The model's `intoOwned` functions rebuild a value from its parts (`Model/Owned.lean`) and
@@ -371,54 +350,6 @@ theorem into_owned_envelope :
     ("own:Question" ∈ Gen.Env.untied ∨
       (Gen.Env.intoOwned.lookup "Question").map (·.map (·.1)) =
         some ["qclass", "qname", "qtype", "unicast_response"]) := by decide
-
-/-! ### 11. the discovery listeners and a failed reply (simple-mdns)
-
-The responders are not the only services that answer queries: a `ServiceDiscovery` answers for its
-own instance. The sync listener sends through `send_packet`, which logs a failed `send_to`; the tokio
-listener runs `process_packet` and logs its error. Either way the loop goes on
-(`Props/C14.lean: responder_loop_survives` is about the same `responderIteration`). -/
-
-theorem discovery_send_policy :
-    policyOf (Gen.Env.discoverySendSync.getD "log") = Mdns.responderSendPolicy ∧
-    policyOf (Gen.Env.discoverySendTokio.getD "log") = Mdns.responderSendPolicy := by decide
-
-/-! ### 12. relations between names (`name.rs`) -/
-
-/-- `Name::is_link_local` with the label it compares the last label with -/
-def isLinkLocalWith (lit : Bytes) (n : Name) : Bool :=
-  match n.getLast? with
-  | some l => eqIgnoreAsciiCase lit l
-  | none => false
-
-/-- `Name::is_subdomain_of` with its length comparison (`>`: strictly longer; `>=` would make every
-name a subdomain of itself) -/
-def isSubdomainOfWith (strict : Bool) (a b : Name) : Bool :=
-  (if strict then decide (a.length > b.length) else decide (a.length ≥ b.length)) &&
-    (b.reverse.zip a.reverse).all (fun p => p.1 == p.2)
-
-/-- the bytes of the label literal, for the literals that can occur here -/
-def labelBytes (s : String) : Bytes := s.toList.map (fun c => UInt8.ofNat c.toNat)
-
-/-- the source's `is_link_local` compares the last label, ignoring ASCII case, with `local`; its
-`is_subdomain_of` demands a strictly longer name and compares labels pairwise from the right; its
-`without` keeps the leading labels, as many as the lengths differ -/
-theorem name_relations_source :
-    Gen.Env.linkLocalLabel.all (· == "local") ∧ Gen.Env.subdomainCmp.all (· == ">") ∧
-    Gen.Env.withoutShape.all (· == "take-length-difference") := by decide
-
-theorem link_local_label (n : Name) :
-    n.isLinkLocal = isLinkLocalWith (labelBytes (Gen.Env.linkLocalLabel.getD "local")) n := by
-  have : labelBytes (Gen.Env.linkLocalLabel.getD "local") = [108, 111, 99, 97, 108] := by decide
-  rw [this]; rfl
-
-theorem subdomain_comparison (a b : Name) :
-    a.isSubdomainOf b = isSubdomainOfWith (Gen.Env.subdomainCmp.getD ">" == ">") a b := by
-  have : (Gen.Env.subdomainCmp.getD ">" == ">") = true := by decide
-  rw [this]; simp [Name.isSubdomainOf, isSubdomainOfWith]
-
-/-- with `>=` the relation would be reflexive: the strictness read from the source matters -/
-example : isSubdomainOfWith false [[97]] [[97]] = true ∧ isSubdomainOfWith true [[97]] [[97]] = false := by decide
 
 /-! ### 13. the response code across the header and the OPT TTL (`rdata/opt.rs`) -/
 
@@ -444,95 +375,7 @@ octet 1 with header nibble 0 (BADVERS) would read as FormatError -/
 example : extractRcodeWith 0xFF 0 1 { id := 0, opcode := .StandardQuery, rcode := .NoError, flags := 0, opt := none } = .FormatError ∧
     extractRcodeWith 0xFF 4 1 { id := 0, opcode := .StandardQuery, rcode := .NoError, flags := 0, opt := none } = .BADVERS := by decide
 
-/-! ### 14. escaping of instance names (simple-mdns) -/
-
-/-- `escaped_instance_name` puts a backslash before `.` and `\\`, and before nothing else;
-`unescaped_instance_name` takes the character after a backslash as it is (the model:
-`Mdns.escapeName`, `Mdns.unescapeName`; `Props/C15.lean` proves the round trip for them) -/
-theorem escape_source :
-    Gen.Env.escapePairs.all (· == [(".", "\\."), ("\\", "\\\\")]) ∧ Gen.Env.unescapeOn.all (· == "\\") := by decide
-
-/-! ### 15. the model's functions at what the source says: `without`, escaping; `MessageWriter`
-
-Sections 12 and 14 above compare what was read from the source with literals; the theorems below
-say that the model's own functions are the generic functions instantiated with the values read. -/
-
-/-- `Name::without` with the shape read from the source -/
-def withoutWith (shape : String) (a b : Name) : Option Name :=
-  if shape = "take-length-difference" then
-    (if a.isSubdomainOf b then some (a.take (a.length - b.length)) else none)
-  else none
-
-/-- the model's `Name.without` is the generic function at the shape read from `name.rs` -/
-theorem without_shape (a b : Name) :
-    a.without b = withoutWith (Gen.Env.withoutShape.getD "take-length-difference") a b := by
-  have h : Gen.Env.withoutShape.getD "take-length-difference" = "take-length-difference" := by decide
-  rw [h]; simp [withoutWith, Name.without]
-
-/-- `escaped_instance_name` over a table (character, its escaped form) -/
-def escapeWith (pairs : List (Char × List Char)) : List Char → List Char
-  | [] => []
-  | c :: cs => (match pairs.lookup c with | some e => e | none => [c]) ++ escapeWith pairs cs
-
-/-- `unescaped_instance_name` with the escape character -/
-def unescapeWith (esc : Char) : List Char → List Char
-  | [] => []
-  | [c] => if c = esc then [] else [c]
-  | c :: d :: cs => if c = esc then d :: unescapeWith esc cs else c :: unescapeWith esc (d :: cs)
-
-/-- what the model is written with (used when the item is untied) -/
-def modelEscapePairs : List (String × String) := [(".", "\\."), ("\\", "\\\\")]
-
-def pairsOf (ps : List (String × String)) : List (Char × List Char) :=
-  ps.filterMap (fun p => match p.1.toList with | [c] => some (c, p.2.toList) | _ => none)
-
-def charOf (s : String) : Char := match s.toList with | [c] => c | _ => 'x'
-
-/-- the escape table of the source, as characters -/
-theorem pairs_read : pairsOf (Gen.Env.escapePairs.getD modelEscapePairs) = [('.', ['\\', '.']), ('\\', ['\\', '\\'])] := by decide
-/-- the escape character `unescaped_instance_name` looks for -/
-theorem esc_read : charOf (Gen.Env.unescapeOn.getD "\\") = '\\' := by decide
-
-/-- **the model's `escapeName` is the generic escaper at the table read from `instance_information.rs`** (so a third
-escaped character, or another escaped form, in the source fails this theorem or unties the item) -/
-theorem escape_tied (cs : List Char) :
-    Mdns.escapeName cs = escapeWith (pairsOf (Gen.Env.escapePairs.getD modelEscapePairs)) cs := by
-  rw [pairs_read]
-  induction cs with
-  | nil => rfl
-  | cons c cs ih =>
-    by_cases h1 : c = '.'
-    · subst h1; simp [escapeWith, Mdns.escapeName, List.lookup, ih]
-    · by_cases h2 : c = '\\'
-      · subst h2; simp [escapeWith, Mdns.escapeName, List.lookup, ih]
-      · have e : Mdns.escapeName (c :: cs) = c :: Mdns.escapeName cs := by
-          rw [Mdns.escapeName]
-          · intro h; exact h1 h
-          · intro h; exact h2 h
-        have l : List.lookup c [('.', ['\\', '.']), ('\\', ['\\', '\\'])] = none := by
-          have b1 : (c == '.') = false := by simpa using h1
-          have b2 : (c == '\\') = false := by simpa using h2
-          simp [List.lookup, b1, b2]
-        rw [e, ih]
-        simp [escapeWith, l]
-
-/-- the model's `unescapeName` is the generic unescaper at the escape character read from the source -/
-theorem unescape_tied (cs : List Char) :
-    Mdns.unescapeName cs = unescapeWith (charOf (Gen.Env.unescapeOn.getD "\\")) cs := by
-  rw [esc_read]
-  fun_induction Mdns.unescapeName cs with
-  | case1 => rfl
-  | case2 => rfl
-  | case3 c cs ih => simp [unescapeWith, ih]
-  | case4 c cs h1 h2 ih =>
-    rw [ih]
-    cases cs with
-    | nil =>
-      have hc : c ≠ '\\' := fun h => h1 h rfl
-      simp [unescapeWith, hc]
-    | cons d ds =>
-      have hc : c ≠ '\\' := fun h => h2 d ds h rfl
-      simp [unescapeWith, hc]
+/-! ### 15. `MessageWriter` -/
 
 /-- `MessageWriter`, the wrapper `write_compressed_to` writes through: `write` and `flush` are
 forwarded to the caller's writer (so the final `flush` of `packet_write_order` reaches it) and
@@ -619,386 +462,4 @@ theorem question_codes_round :
     QTYPE.ofCode QTYPE.ANY.toCode = .ok .ANY ∧ QCLASS.ofCode QCLASS.ANY.toCode = .ok .ANY := by
   decide
 
-/-! ### 18. the record store and `build_reply` (simple-mdns) -/
-
-/-- `add_cached_resource` with the lifetime of a cache-flush record and the treatment of a record the
-store already holds as authoritative as parameters -/
-def addCachedWith (flushTtl : Nat) (guard : String) (s : Mdns.Store) (r : RR) (now : Nat) : Mdns.Store :=
-  let k := Mdns.getKey r.name
-  let ttl := if r.flush then flushTtl else r.ttl
-  let b := (s.bucket k).getD []
-  let put := s.setBucket k (b.insert r (.cached (now + 1000 * ttl) (now + 1000 * Mdns.refreshOffsetSecs ttl)))
-  if guard = "unless-authoritative" then
-    match b.get r with
-    | some .auth => s
-    | _ => put
-  else put
-
-/-- **`add_cached_resource` is the model's `addCached`**: a cache-flush record lives `1` second and a
-record registered locally is left alone, as the source has them (`{2}` for the flush lifetime, or the
-guard dropped, regenerates other values and this fails) -/
-theorem store_add_source (s : Mdns.Store) (r : RR) (now : Nat) :
-    s.addCached r now =
-      addCachedWith (Gen.Env.storeFlushTtl.getD 1) (Gen.Env.storeCachedGuard.getD "unless-authoritative") s r now := by
-  have h1 : Gen.Env.storeFlushTtl.getD 1 = 1 := by decide
-  have h2 : Gen.Env.storeCachedGuard.getD "unless-authoritative" = "unless-authoritative" := by decide
-  rw [h1, h2]
-  simp only [Mdns.Store.addCached, addCachedWith, if_true]
-  split <;> simp_all
-
-/-- the key shape the extractor recognises is the one `getKey` is written with: labels from the root
-down, each behind its length octet -/
-theorem store_key_shape : Gen.Env.storeKeyShape.getD "root-first-length-prefixed" = "root-first-length-prefixed" ∧
-    Mdns.getKey [[97], [98, 99]] = [2, 98, 99, 1, 97] := by decide
-
-def flagOf (param : Bool) (s : String) : Bool := if s = "param" then param else s = "true"
-
-/-- a `DomainResourceFilter` constructor, from its three field initialisers -/
-def filterOf (spec : List String) (param : Bool) : Mdns.Filter :=
-  ⟨flagOf param (spec.getD 0 ""), flagOf param (spec.getD 1 ""), flagOf param (spec.getD 2 "")⟩
-
-def modelFilterCtors : List (String × List String) :=
-  [("authoritative", ["param", "true", "false"]), ("cached", ["true", "false", "true"]), ("all", ["true", "true", "true"])]
-
-def cmpOf (op : String) (a b : Nat) : Bool :=
-  if op = ">" then a > b else if op = ">=" then a ≥ b else if op = "<" then a < b else a ≤ b
-
-def fieldOf (name : String) (f : Mdns.Filter) : Bool :=
-  if name = "authoritative" then f.authoritative else if name = "cached" then f.cached else f.subdomain
-
-/-- `match_filter` by what it consults -/
-def matchesWith (spec : List String) (f : Mdns.Filter) (k : Mdns.Kind) (now : Nat) : Bool :=
-  match k with
-  | .auth => fieldOf (spec.getD 0 "") f
-  | .cached e r => fieldOf (spec.getD 1 "") f &&
-      cmpOf (spec.getD 3 "") (if spec.getD 2 "" = "expire_at" then e else r) now
-
-/-- `should_refresh` by what it consults -/
-def shouldRefreshWith (spec : List String) (k : Mdns.Kind) (now : Nat) : Bool :=
-  match k with
-  | .auth => spec.getD 0 "" = "true"
-  | .cached e r => cmpOf (spec.getD 2 "") (if spec.getD 1 "" = "refresh_at" then r else e) now
-
-/-- **the filters of the store are the model's**: the three constructors field by field, which field
-`match_filter` consults for which kind of record and that a cached record counts while
-`expire_at > now`, that a refresh is due once `refresh_at < now`, and that `get_next_refresh` takes the
-minimum of the refresh instants (`>=` for `>`, `expire_at` for `refresh_at`, `cached: false` in
-`all()` - each regenerates another value and this fails) -/
-theorem store_filter_source (sub : Bool) (f : Mdns.Filter) (k : Mdns.Kind) (now : Nat) :
-    let ctors := Gen.Env.storeFilterCtors.getD modelFilterCtors
-    Mdns.Filter.auth sub = filterOf ((ctors.lookup "authoritative").getD []) sub ∧
-    Mdns.Filter.cachedOnly = filterOf ((ctors.lookup "cached").getD []) sub ∧
-    Mdns.Filter.all = filterOf ((ctors.lookup "all").getD []) sub ∧
-    f.matches k now = matchesWith (Gen.Env.storeMatchFilter.getD ["authoritative", "cached", "expire_at", ">"]) f k now ∧
-    k.shouldRefresh now = shouldRefreshWith (Gen.Env.storeShouldRefresh.getD ["false", "refresh_at", "<"]) k now ∧
-    Gen.Env.storeNextRefresh.getD ["refresh_at", "min"] = ["refresh_at", "min"] := by
-  have h1 : Gen.Env.storeFilterCtors.getD modelFilterCtors = modelFilterCtors := by decide
-  have h2 : Gen.Env.storeMatchFilter.getD ["authoritative", "cached", "expire_at", ">"] = ["authoritative", "cached", "expire_at", ">"] := by decide
-  have h3 : Gen.Env.storeShouldRefresh.getD ["false", "refresh_at", "<"] = ["false", "refresh_at", "<"] := by decide
-  have h4 : Gen.Env.storeNextRefresh.getD ["refresh_at", "min"] = ["refresh_at", "min"] := by decide
-  simp only [h1, h2, h3, h4]
-  refine ⟨?_, ?_, ?_, ?_, ?_, trivial⟩
-  · cases sub <;> decide
-  · cases sub <;> decide
-  · cases sub <;> decide
-  · cases k <;> simp [Mdns.Filter.matches, matchesWith, fieldOf, cmpOf]
-  · cases k <;> simp [Mdns.Kind.shouldRefresh, shouldRefreshWith, cmpOf]
-
-/-- `get_domain_resources` by its three decisions: the sub-trie at the key when subdomains are asked
-for, the bucket of the key otherwise, groups left empty by the filter dropped -/
-def getDomainWith (spec : List String) (s : Mdns.Store) (name : Name) (f : Mdns.Filter) (now : Nat) : List (List RR) :=
-  let k := Mdns.getKey name
-  let pick (b : Mdns.Bucket) : List RR := (b.filter (fun e => f.matches e.2 now)).map (·.1)
-  let whole := if s.nodeExists k then (s.entries.filter (fun e => Mdns.isPrefixOf k e.1)).map (fun e => pick e.2) else []
-  let exact := match s.bucket k with
-    | some b => [pick b]
-    | none => []
-  let found := if f.subdomain then (if spec.getD 0 "" = "subtrie-when-subdomain" then whole else exact)
-               else (if spec.getD 1 "" = "get-otherwise" then exact else whole)
-  if spec.getD 2 "" = "drop-empty-groups" then found.filter (fun g => !g.isEmpty) else found
-
-theorem store_lookup_source (s : Mdns.Store) (name : Name) (f : Mdns.Filter) (now : Nat) :
-    s.getDomain name f now =
-      getDomainWith (Gen.Env.storeLookup.getD ["subtrie-when-subdomain", "get-otherwise", "drop-empty-groups"]) s name f now := by
-  have h : Gen.Env.storeLookup.getD ["subtrie-when-subdomain", "get-otherwise", "drop-empty-groups"] =
-      ["subtrie-when-subdomain", "get-otherwise", "drop-empty-groups"] := by decide
-  rw [h]
-  simp only [Mdns.Store.getDomain, getDomainWith]
-  cases f.subdomain
-  · simp only [Bool.false_eq_true, if_false, if_true, List.getD_cons_zero, List.getD_cons_succ]
-    cases s.bucket (Mdns.getKey name) <;> rfl
-  · simp
-
-def typeNamed (s : String) : TYPE :=
-  if s = "A" then .A else if s = "AAAA" then .AAAA else if s = "SRV" then .SRV else if s = "TXT" then .TXT
-  else if s = "PTR" then .PTR else .Unknown 0
-
-/-- answers and additional records for one question, with the two look-up modes and the types of the
-additional records as parameters -/
-def answersForWith (ansSub tgtSub : Bool) (types : List String) (s : Mdns.Store) (q : Question) (now : Nat) :
-    List RR × List RR :=
-  let answers := ((s.getDomain q.name (Mdns.Filter.auth ansSub) now).flatten).filter
-    (fun r => r.matchQClass q.qclass && r.matchQType q.qtype)
-  let extra := answers.flatMap (fun a =>
-    match Mdns.srvTarget a.rdata with
-    | some t => ((s.getDomain t (Mdns.Filter.auth tgtSub) now).flatten).filter (fun r =>
-        types.any (fun ty => r.matchQType (.TYPE (typeNamed ty))) && r.matchQClass q.qclass)
-    | none => [])
-  (answers, extra)
-
-/-- **`build_reply` collects what the model collects**: answers from the question's name and
-everything below it, among authoritative records, by class and type; for an SRV answer the address
-records (A, AAAA) of exactly its target, of the question's class (`authoritative(false)` for the
-answers, a third type among the additional records, or the class test dropped: other values, and
-this fails or the item is untied) -/
-theorem build_reply_source (s : Mdns.Store) (q : Question) (now : Nat) :
-    Mdns.answersFor s q now =
-      answersForWith (Gen.Env.replyAnswerSub.getD "true" = "true") (Gen.Env.replyTargetSub.getD "false" = "true")
-        (Gen.Env.replyAdditionalTypes.getD ["A", "AAAA"]) s q now := by
-  have h1 : Gen.Env.replyAnswerSub.getD "true" = "true" := by decide
-  have h2 : Gen.Env.replyTargetSub.getD "false" = "false" := by decide
-  have h3 : Gen.Env.replyAdditionalTypes.getD ["A", "AAAA"] = ["A", "AAAA"] := by decide
-  rw [h1, h2, h3]
-  simp only [Mdns.answersFor, answersForWith, typeNamed, List.any_cons, List.any_nil, Bool.or_false,
-    if_true, if_false, decide_true, decide_false, (by decide : ("false" = "true") = False),
-    (by decide : ("AAAA" = "A") = False)]
-  congr 1
-
-/-! ### 19. what a received response adds and reports (simple-mdns) -/
-
-def sectionNamed (p : Packet) (s : String) : List RR :=
-  if s = "answers" then p.answers else if s = "additional_records" then p.additional
-  else if s = "name_servers" then p.nameServers else []
-
-/-- the records `add_response_to_resources` keeps, by the sections it reads and the conditions it asks -/
-def ingestRecordsWith (sections conds : List String) (p : Packet) (service full : Name) : List RR :=
-  (sections.flatMap (sectionNamed p)).filter (fun r =>
-    (!conds.contains "not-the-own-name" || r.name != full) &&
-    (!conds.contains "below-the-service" || r.name.isSubdomainOf service))
-
-def modelIngestSections : List String := ["answers", "additional_records"]
-def modelIngestFilter : List String := ["below-the-service", "not-the-own-name"]
-
-/-- **both flavours of `add_response_to_resources` keep what the model keeps**: answers then
-additional records, not the discoverer's own instance, and only names below the watched service (a
-flavour that also reads the authority section, or drops one of the two conditions, regenerates other
-values and this fails) -/
-theorem ingest_source (p : Packet) (service full : Name) :
-    ∀ k < 2, Mdns.ingestRecords p service full =
-      ingestRecordsWith ((Gen.Env.ingestSections.getD k none).getD modelIngestSections)
-        ((Gen.Env.ingestFilter.getD k none).getD modelIngestFilter) p service full := by
-  have h : ∀ k < 2, (Gen.Env.ingestSections.getD k none).getD modelIngestSections = modelIngestSections ∧
-      (Gen.Env.ingestFilter.getD k none).getD modelIngestFilter = modelIngestFilter := by decide
-  intro k hk
-  rw [(h k hk).1, (h k hk).2]
-  simp [Mdns.ingestRecords, ingestRecordsWith, modelIngestSections, modelIngestFilter, sectionNamed]
-
-/-- what one record contributes to an `InstanceInformation`, by the arms of `from_records` -/
-def contributes (arms : List (String × String)) (i : Mdns.Instance) (r : RR) : Mdns.Instance :=
-  match r.rdata with
-  | .flat 1 [.int a] => if arms.lookup "A" = some "ipv4" then { i with ips := Mdns.insertNew i.ips (false, a) } else i
-  | .flat 28 [.int a] => if arms.lookup "AAAA" = some "ipv6" then { i with ips := Mdns.insertNew i.ips (true, a) } else i
-  | .flat 16 [.strs ss] =>
-    if arms.lookup "TXT" = some "attributes-with-a-key" then
-      { i with attrs := Mdns.attrsExtend i.attrs ((Txt.attributes ss).filter (fun e => !e.1.isEmpty)) }
-    else if arms.lookup "TXT" = some "attributes" then
-      { i with attrs := Mdns.attrsExtend i.attrs (Txt.attributes ss) }
-    else i
-  | .flat 33 [_, _, .int port, _] => if arms.lookup "SRV" = some "port" then { i with ports := Mdns.insertNew i.ports port } else i
-  | _ => i
-
-def fromRecordsWith (arms : List (String × String)) (service : Name) (records : List RR) : Option Mdns.Instance :=
-  let name := records.findSome? (fun r => r.name.without service)
-  let inst : Mdns.Instance := records.foldl (contributes arms) { name := [], ips := [], ports := [], attrs := [] }
-  name.map (fun n => { inst with name := Name.display n })
-
-def modelFromRecordsArms : List (String × String) :=
-  [("A", "ipv4"), ("AAAA", "ipv6"), ("TXT", "attributes-with-a-key"), ("SRV", "port")]
-
-/-- **`InstanceInformation::from_records` is the model's `fromRecords`**: A and AAAA records give
-addresses, SRV records ports, TXT records their attributes except those with an empty key, anything
-else nothing (an arm removed, or the empty-key filter dropped, regenerates other values and this
-fails) -/
-theorem from_records_source (service : Name) (records : List RR) :
-    Mdns.fromRecords service records =
-      fromRecordsWith (Gen.Env.fromRecordsArms.getD modelFromRecordsArms) service records := by
-  have h : Gen.Env.fromRecordsArms.getD modelFromRecordsArms = modelFromRecordsArms := by decide
-  rw [h]
-  have hc : ∀ (i : Mdns.Instance) (r : RR), contributes modelFromRecordsArms i r =
-      (match r.rdata with
-        | .flat 1 [.int a] => { i with ips := Mdns.insertNew i.ips (false, a) }
-        | .flat 28 [.int a] => { i with ips := Mdns.insertNew i.ips (true, a) }
-        | .flat 16 [.strs ss] =>
-          { i with attrs := Mdns.attrsExtend i.attrs ((Txt.attributes ss).filter (fun e => !e.1.isEmpty)) }
-        | .flat 33 [_, _, .int port, _] => { i with ports := Mdns.insertNew i.ports port }
-        | _ => i) := by
-    intro i r
-    unfold contributes
-    split <;> simp [modelFromRecordsArms, List.lookup]
-  simp only [Mdns.fromRecords, fromRecordsWith]
-  congr 2
-  first
-    | done
-    | (funext i r; exact (hc i r).symm)
-
-/-! ### 20. the records an instance is advertised with (simple-mdns) -/
-
-def classNamed (s : String) : CLASS :=
-  if s = "IN" then .IN else if s = "CH" then .CH else if s = "HS" then .HS else if s = "CS" then .CS else .NONE
-
-def addrCode (s : String) : Nat := if s = "A" then 1 else if s = "AAAA" then 28 else 0
-
-/-- `InstanceInformation::into_records` by the order of its groups and by what the constructors of
-`conversion_utils.rs` put into the records -/
-def intoRecordsWith (order v4 v6 : List String) (srv : String × Nat × Nat) (txtClass : String)
-    (full : Name) (ips : List (Bool × Nat)) (ports : List Nat) (attrs : Attrs) (ttl : Nat) : Out (List RR) :=
-  match Txt.ofMap attrs with
-  | .ok ss =>
-    let mk (c : String) (rd : RData) : RR := { name := full, cls := classNamed c, ttl := ttl, rdata := rd, flush := false }
-    let group (g : String) : List RR :=
-      if g = "addresses" then ips.map (fun ip =>
-        if ip.1 then mk (v6.getD 1 "") (.flat (addrCode (v6.getD 0 "")) [.int ip.2])
-        else mk (v4.getD 1 "") (.flat (addrCode (v4.getD 0 "")) [.int ip.2]))
-      else if g = "ports" then ports.map (fun p => mk srv.1 (.flat 33 [.int srv.2.1, .int srv.2.2, .int p, .name full]))
-      else if g = "attributes" then [mk txtClass (.flat 16 [.strs ss])]
-      else []
-    .ok (order.flatMap group)
-  | .err => .err
-  | .panic => .panic
-
-/-- **an instance is advertised with the records the model builds**: address records (A for IPv4,
-AAAA for IPv6), then one SRV record per port with priority 0, weight 0 and the instance's own name
-as target, then one TXT record; all of class IN, owned by the instance's full name (another order,
-another class, `weight: 1`: other values, and this fails) -/
-theorem into_records_source (full : Name) (ips : List (Bool × Nat)) (ports : List Nat) (attrs : Attrs) (ttl : Nat) :
-    Mdns.intoRecords full ips ports attrs ttl =
-      intoRecordsWith (Gen.Env.intoRecordsOrder.getD ["addresses", "ports", "attributes"])
-        (Gen.Env.intoRecordsV4.getD ["A", "IN"]) (Gen.Env.intoRecordsV6.getD ["AAAA", "IN"])
-        (Gen.Env.intoRecordsSrv.getD ("IN", 0, 0)) (Gen.Env.intoRecordsTxtClass.getD "IN") full ips ports attrs ttl := by
-  have h1 : Gen.Env.intoRecordsOrder.getD ["addresses", "ports", "attributes"] = ["addresses", "ports", "attributes"] := by decide
-  have h2 : Gen.Env.intoRecordsV4.getD ["A", "IN"] = ["A", "IN"] := by decide
-  have h3 : Gen.Env.intoRecordsV6.getD ["AAAA", "IN"] = ["AAAA", "IN"] := by decide
-  have h4 : Gen.Env.intoRecordsSrv.getD ("IN", 0, 0) = ("IN", 0, 0) := by decide
-  have h5 : Gen.Env.intoRecordsTxtClass.getD "IN" = "IN" := by decide
-  rw [h1, h2, h3, h4, h5]
-  unfold Mdns.intoRecords intoRecordsWith
-  cases Txt.ofMap attrs <;> simp [bind, pure, Out.bind, classNamed, addrCode]
-
-/-! ### 21. the loop of `Name::parse` (`name.rs`) -/
-
-/-- one turn of the model's `nameLoop`: the result, or the state the next turn starts from -/
-def nameStep (d : Bytes) (s : NS) : Sum (Out (Name × Nat)) NS :=
-  if s.pos ≥ d.length ∨ s.pp ≥ d.length then .inl .err else
-  if s.size ≥ 255 then .inl .err else
-  match d[s.pp]? with
-  | none => .inl .panic
-  | some b =>
-    if b = 0 then .inl (.ok (s.labels.reverse, s.pos + 1))
-    else if b.toNat &&& 0xC0 = 0xC0 then
-      if s.pp + 2 > d.length then .inl .err else
-      match d[s.pp+1]? with
-      | none => .inl .panic
-      | some b2 =>
-        if (b.toNat &&& 0x3F) * 256 + b2.toNat ≥ s.pp then .inl .err else
-        .inr { s with pos := if s.follow then s.pos else s.pos + 1, pp := (b.toNat &&& 0x3F) * 256 + b2.toNat, follow := true }
-    else
-      if s.pp + 1 + b.toNat > d.length then .inl .err else
-      if b.toNat > 63 then .inl .err else
-      .inr { pos := if s.follow then s.pos else s.pos + b.toNat + 1,
-             pp := s.pp + b.toNat + 1, follow := s.follow,
-             size := s.size + 1 + b.toNat, labels := (d.drop (s.pp+1)).take b.toNat :: s.labels }
-
-theorem nameLoop_step (d : Bytes) (s : NS) :
-    nameLoop d s = (match nameStep d s with
-       | .inl o => o
-       | .inr s' => nameLoop d s') := by
-  rw [nameLoop]
-  unfold nameStep
-  by_cases h0 : s.pos ≥ d.length ∨ s.pp ≥ d.length
-  · simp only [h0, if_true]
-  · simp only [h0, if_false]
-    by_cases h1 : s.size ≥ 255
-    · simp only [h1, if_true]
-    · simp only [h1, if_false]
-      cases hb : d[s.pp]? with
-      | none => simp only []
-      | some b =>
-        simp only []
-        by_cases hz : b = 0
-        · simp only [hz, if_true]
-        · simp only [hz, if_false]
-          by_cases hp : b.toNat &&& 0xC0 = 0xC0
-          · simp only [hp, if_true]
-            by_cases h2 : s.pp + 2 > d.length
-            · simp only [h2, if_true]
-            · simp only [h2, if_false]
-              cases hb2 : d[s.pp+1]? with
-              | none => simp only []
-              | some b2 =>
-                simp only []
-                by_cases h3 : (b.toNat &&& 0x3F) * 256 + b2.toNat ≥ s.pp
-                · simp only [h3, if_true, dite_true]
-                · simp only [h3, if_false, dite_false]
-          · simp only [hp, if_false]
-            by_cases h4 : s.pp + 1 + b.toNat > d.length
-            · simp only [h4, if_true]
-            · simp only [h4, if_false]
-              by_cases h5 : b.toNat > 63
-              · simp only [h5, if_true]
-              · simp only [h5, if_false]
-
-/-- one turn of the loop of `Name::parse` with its numbers and comparisons as parameters: the result,
-or the state the next turn starts from -/
-def nameStepWith (nums : List Nat) (ops : List String) (d : Bytes) (s : NS) : Sum (Out (Name × Nat)) NS :=
-  if s.pos ≥ d.length ∨ s.pp ≥ d.length then .inl .err else
-  if cmpOf (ops.getD 0 "") s.size 255 then .inl .err else
-  match d[s.pp]? with
-  | none => .inl .panic
-  | some b =>
-    if b = 0 then .inl (.ok (s.labels.reverse, s.pos + 1))
-    else if b.toNat &&& 0xC0 = 0xC0 then
-      let pos := if s.follow then s.pos else s.pos + nums.getD 6 0
-      if cmpOf (ops.getD 1 "") (s.pp + nums.getD 1 0) d.length then .inl .err else
-      match d[s.pp+1]? with
-      | none => .inl .panic
-      | some b2 =>
-        let ptr := (b.toNat &&& 0x3F) * 256 + b2.toNat
-        if cmpOf (ops.getD 2 "") ptr s.pp then .inl .err else
-        .inr { s with pos := pos, pp := ptr, follow := true }
-    else
-      let len := b.toNat
-      if cmpOf (ops.getD 3 "") (s.pp + nums.getD 3 0 + len) d.length then .inl .err else
-      if cmpOf (ops.getD 4 "") len 63 then .inl .err else
-      let lab := (d.drop (s.pp+1)).take len
-      .inr { pos := if s.follow then s.pos else s.pos + len + nums.getD 4 0,
-             pp := s.pp + len + nums.getD 5 0, follow := s.follow,
-             size := s.size + nums.getD 2 0 + len, labels := lab :: s.labels }
-
-def modelNameParseNums : List Nat := [0, 2, 1, 1, 1, 1, 1]
-def modelNameParseOps : List String := [">=", ">", ">=", ">", ">"]
-
-
-theorem cmpOf_ge (a b : Nat) : cmpOf ">=" a b = decide (a ≥ b) := by simp [cmpOf]
-theorem cmpOf_gt (a b : Nat) : cmpOf ">" a b = decide (a > b) := by simp [cmpOf]
-
-theorem nameStepWith_model (d : Bytes) (s : NS) :
-    nameStepWith modelNameParseNums modelNameParseOps d s = nameStep d s := by
-  simp only [nameStepWith, nameStep, modelNameParseNums, modelNameParseOps, List.getD_cons_zero, List.getD_cons_succ,
-    cmpOf_ge, cmpOf_gt, decide_eq_true_eq]
-
-/-- **the loop of `Name::parse` is the model's `nameLoop`**, turn by turn: the model's loop does what
-one turn with the numbers and comparisons read from the source does and goes on from the state that
-turn leaves, and `Name::parse` enters it with the initial `name_size` of the source (a size counter
-that starts at 1, `>` for `>=` in the size guard, `+ 1` for `+ 2` in the pointer bound, `>` for `>=`
-in the backward-pointer test: each regenerates another value and this fails) -/
-theorem name_parse_source (d : Bytes) (s : NS) (pos : Nat) :
-    nameLoop d s =
-      (match nameStepWith (Gen.Env.nameParseNums.getD modelNameParseNums) (Gen.Env.nameParseOps.getD modelNameParseOps) d s with
-       | .inl o => o
-       | .inr s' => nameLoop d s') ∧
-    Name.parse d pos = nameLoop d (NS.mk pos pos false ((Gen.Env.nameParseNums.getD modelNameParseNums).getD 0 0) []) := by
-  have h1 : Gen.Env.nameParseNums.getD modelNameParseNums = modelNameParseNums := by decide
-  have h2 : Gen.Env.nameParseOps.getD modelNameParseOps = modelNameParseOps := by decide
-  rw [h1, h2, nameStepWith_model]
-  exact ⟨nameLoop_step d s, rfl⟩
 end Dns.TieEnv
